@@ -574,7 +574,8 @@ def check_render(run, f, cfg):
         if any(True for _ in H.calls(fn["hir"], lambda c: c.get("callee") == COND + "::to_simple_expr")):
             callers.add(nm)
     allowed = {COND + "::to_simple_expr", QB + "::prepare_condition_where"}
-    extra = sorted(c for c in callers - allowed if "::test" not in c)
+    # items nested in to_simple_expr (a local helper fn, a closure) are part of it
+    extra = sorted(c for c in callers - allowed if "::test" not in c and not c.startswith(COND + "::to_simple_expr::"))
     run.ob("C06.R4", "to_simple_expr:callers", not extra and (QB + "::prepare_condition_where") in callers,
            "conditions are turned into expressions only by prepare_condition_where", cfg=cfg, detail=extra or None)
     # prepare_condition_where renders exactly that expression
